@@ -172,7 +172,7 @@ class IntermediateCodeGen(AbstractCodeGen):
             if moduleCompliance:
                 self._complianceOids.append(outDict['oid'])
 
-    def genNumericOid(self, oid):
+    def genNumericOid(self, oid, _path=()):
         numericOid = ()
 
         for part in oid:
@@ -188,7 +188,10 @@ class IntermediateCodeGen(AbstractCodeGen):
 
                 if parent not in self.symbolTable[module]:
                     raise error.PySmiSemanticError('no symbol "%s" in module "%s"' % (parent, module))
-                numericOid += self.genNumericOid(self.symbolTable[module][parent]['oid'])
+                if part in _path:
+                    raise error.PySmiSemanticError('OID of symbol "%s" in module "%s" is defined in terms of itself' % (parent, module))
+
+                numericOid += self.genNumericOid(self.symbolTable[module][parent]['oid'], _path + (part,))
 
             else:
                 numericOid += (part,)
